@@ -96,9 +96,13 @@ static int v_pthread_join(pthread_t t, void **r)
 static int delivered, last_seq = -1, order_ok = 1;
 static int lost_reported;
 struct qb_log_callsite;
+static qb_thread_lock_t *logt_wthread_lock;      /* (defined by lib/log_thread.c below) */
 void qb_log_thread_log_write(struct qb_log_callsite *cs, struct timespec *ts, const char *buffer)
 {
 	(void)cs; (void)ts;
+	/* control operations (qb_log_ctl2 -> pause/resume) exclude the worker through this lock: a target is only
+	 * written to while the worker holds it */
+	PROP(logt_wthread_lock != NULL && logt_wthread_lock->held, "targets are written under the lock that control operations take (pause/resume)");
 	int seq = buffer[0] - 'a';
 	if (seq <= last_seq) order_ok = 0;
 	last_seq = seq;
